@@ -122,14 +122,17 @@ fn push_all(mut a: Circuit, b: &Circuit) -> Circuit {
     a
 }
 
-fn kinds_of(gs: &[&G]) -> String {
-    let mut k: Vec<&str> = gs.iter().map(|g| g.name()).collect();
+/// One violation per failing gate kind, so that a root cause in one gate kind gives one
+/// signature whatever else the witness circuit contains.
+fn per_kind_violations(prefix: &str, bad: &[&G], family: &'static str, index: u64, detail: Value) {
+    let mut k: Vec<&str> = bad.iter().map(|g| g.name()).collect();
     k.sort();
     k.dedup();
     if k.is_empty() {
-        "none(only-in-combination)".to_string()
-    } else {
-        k.join(",")
+        k.push("none-alone(only-in-combination)");
+    }
+    for kind in k {
+        ctx().violation(&format!("{prefix}|kind={kind}"), family, index, detail.clone());
     }
 }
 
@@ -221,8 +224,9 @@ fn check_circuit(family: &'static str, index: u64, hc: &Circ) {
                     Ok(false) => {
                         // minimise: which single gates fail on their own?
                         let bad: Vec<&G> = hc.gates.iter().filter(|g| matches!(adjoint_holds(&single(n, g), exact), Ok(false))).collect();
-                        c.violation(
-                            &format!("to_adjoint|not-inverse|kinds={}", kinds_of(&bad)),
+                        per_kind_violations(
+                            "to_adjoint|not-inverse",
+                            &bad,
                             family,
                             index,
                             json!({"what": "U(c ; c.to_adjoint()) != identity", "input": input, "adjoint": adj.to_string(),
@@ -255,8 +259,9 @@ fn check_circuit(family: &'static str, index: u64, hc: &Circ) {
                         q.to_basic_gates().num_gates() != q.gates[0].num_basic_gates()
                     })
                     .collect();
-                c.violation(
-                    &format!("to_basic_gates|gate-count-not-as-advertised|kinds={}", kinds_of(&bad)),
+                per_kind_violations(
+                    "to_basic_gates|gate-count-not-as-advertised",
+                    &bad,
                     family,
                     index,
                     json!({"input": input, "expected_sum_num_basic_gates": advertised, "observed_num_gates": b.num_gates(), "expansion": b.to_string()}),
@@ -299,8 +304,9 @@ fn check_circuit(family: &'static str, index: u64, hc: &Circ) {
                 Ok(true) => {}
                 Ok(false) => {
                     let bad: Vec<&G> = hc.gates.iter().filter(|g| matches!(expansion_holds(&single(n, g), exact), Ok(false))).collect();
-                    c.violation(
-                        &format!("to_basic_gates|unitary-changed|kinds={}", kinds_of(&bad)),
+                    per_kind_violations(
+                        "to_basic_gates|unitary-changed",
+                        &bad,
                         family,
                         index,
                         json!({"what": "U(to_basic_gates(c)) != U(c) (exact comparison, not up to phase)", "input": input, "expansion": b.to_string(),
@@ -612,7 +618,7 @@ pub fn run() {
     c.assume("conversion harness circuit <-> quizx circuit (gen::circuit::{to_quizx, from_quizx}) is a faithful one-to-one mapping of gate kinds, qubit arguments and phases");
     c.assume("'advertised number of basic gates' is read as the sum of Gate::num_basic_gates(); 'basic' = not CCZ/TOFF/ParityPhase, one or two distinct in-range qubits");
 
-    let (nq, nd, n_rand) = t.pick((5usize, 30usize, 700usize), (6usize, 60usize, 60_000usize));
+    let (nq, nd, n_rand) = t.pick((6usize, 40usize, 3000usize), (6usize, 60usize, 60_000usize));
     par_cases("unitary-exact", n_rand, move |r, i| {
         let hc = gen_circuit(r, &CircParams::unitary(nq, nd, PhPool::Exact));
         check_circuit("unitary-exact", i, &hc);
@@ -621,14 +627,14 @@ pub fn run() {
         let hc = gen_circuit(r, &CircParams::unitary(nq, nd, PhPool::Float));
         check_circuit("unitary-float", i, &hc);
     });
-    let (cq, cd) = t.pick((5usize, 10usize), (7usize, 16usize));
+    let (cq, cd) = t.pick((6usize, 12usize), (7usize, 16usize));
     par_cases("compound-heavy", n_rand / 2, move |r, i| {
         let hc = gen_compound_heavy(r, cq, cd);
         check_circuit("compound-heavy", i, &hc);
     });
 
     // exhaustive single gates: every kind x every ordered qubit tuple x phase list
-    let max_n = t.pick(4usize, 5usize);
+    let max_n = t.pick(5usize, 6usize);
     let mut space: Vec<Circ> = vec![];
     for n in 1..=max_n {
         space.extend(single_gate_space(n));
@@ -642,7 +648,7 @@ pub fn run() {
     c.extra("single_gate_exhaustive", json!({"max_qubits": max_n, "space": total, "completed": !c.out_of_time()}));
 
     // concatenation
-    let (pq, pd, n_pairs) = t.pick((4usize, 16usize, 500usize), (5usize, 30usize, 40_000usize));
+    let (pq, pd, n_pairs) = t.pick((5usize, 20usize, 2000usize), (5usize, 30usize, 40_000usize));
     par_cases("concat-pairs", n_pairs, move |r, i| {
         let pool = if r.chance(0.7) { PhPool::Exact } else { PhPool::Float };
         let n = 1 + r.below(pq);
